@@ -310,6 +310,16 @@ inductive Step where
   | err
 deriving Repr, Inhabited
 
+/-- An embedding schedule whose running item is over: embed item `i` or finish. -/
+def schedLoad (d : SchedD) (i : Nat) : Step :=
+  match d.item i with
+  | .stop => .done
+  | .raise => .err
+  | it =>
+    match it.start with
+    | some c => .tau (.sched d (i + 1) c)
+    | none => .err
+
 mutual
 def step : St → Step
   | .nil => .done
@@ -320,14 +330,7 @@ def step : St → Step
     | .yield v c => .yield v (.sched d i c)
     | .tau c => .tau (.sched d i c)
     | .err => .err
-    | .done =>
-      match d.item i with
-      | .stop => .done
-      | .raise => .err
-      | it =>
-        match it.start with
-        | some c => .tau (.sched d (i + 1) c)
-        | none => .err
+    | .done => schedLoad d i
   | .map1 f s =>
     match step s with
     | .yield v s' =>
